@@ -230,4 +230,38 @@ def verdict (hasRules : Bool) (rules : List Rule) (req : Req) (backend : Hdr) (k
         if h.acam != eAcam || h.acah != eAcah || h.acma != eAcma || h.aceh != eAceh then "FAIL:aux-wrong"
         else "ok"
 
+/-! ### hot reloads: a history of configurations loaded into one module -/
+
+structure Conf where
+  version : Str
+  products : List (Str × List Rule)     -- product -> rules (product names distinct)
+
+/-- CorsRuleFileLoad rejects a configuration as a whole when any rule of any product is invalid -/
+def confOk (c : Conf) : Bool := c.products.all fun p => p.2.all ruleOk
+
+/-- `loadRuleData`: a rejected configuration leaves the table alone, an accepted one REPLACES it
+    (`CorsRuleTable.Update`: `t.productRule = ruleConf.Config`) -/
+def update (t : List (Str × List Rule)) (c : Conf) : List (Str × List Rule) :=
+  if confOk c then c.products else t
+
+def tableAfter (cs : List Conf) : List (Str × List Rule) := cs.foldl update []
+
+/-- `ruleTable.Search(product)` -/
+def lookup (t : List (Str × List Rule)) (product : Str) : Option (List Rule) :=
+  (t.find? fun p => p.1 == product).map (·.2)
+
+/-- the handlers after a reload history -/
+def handleH (cs : List Conf) (product : Str) (req : Req) (backend : Hdr) : Kind × Hdr :=
+  match lookup (tableAfter cs) product with
+  | some rules => handle true rules req backend
+  | none => handle false [] req backend
+
+/-- spec side: the configuration in force is the last one that was accepted -/
+def inForce (cs : List Conf) : Option Conf := cs.reverse.find? confOk
+
+def rulesInForce (cs : List Conf) (product : Str) : Option (List Rule) :=
+  match inForce cs with
+  | some c => lookup c.products product
+  | none => none
+
 end BfeVerif.C52
